@@ -51,6 +51,9 @@ pub mod event_handler;
 
 mod event_queue;
 mod item;
+#[cfg(kani)]
+#[path = "/verif/kani/shim/collections.rs"]
+pub(crate) mod verif_shim;
 
 /// Defines the lane types that can be included in agent specifications. Lanes are exposed externally by the runtime,
 /// using the WARP protocol (or HTTP in the case of [HTTP lanes](`lanes::HttpLane`)). The states of lanes may be stored
